@@ -1,4 +1,1159 @@
 import Pun.Lemmas.Iso
-/-! # C12 — inclusion isotonicity (theorems under construction) -/
+import Pun.Props.C01
+/-!
+# C12 — inclusion isotonicity: widening an input never narrows an output
+
+All statements are about the functions the model driver executes (`Pun.Arith.binop`, `Pun.PBox.*`,
+`Pun.Iso.ITree.eval`, `PTree.eval`, `stacking`, `alphaCut`, `slicing`), for ALL rational operands and
+every number of steps.  `X ⊑ X'` is `PSub X X'` (`pbSub` is its executable form, `pbSub_iff`);
+for intervals `VSub`.  "Dually, the result for a sub-box is contained in the result for the box" is
+the same implication read from right to left.
+
+Intervals (section `Intervals`):
+* `ibin_spec`   every defined `l op r` (Interval or number on either side, `+ − × ÷`) is the EXACT image of
+                its operands (sound, endpoints attained) — from the C01 theorems;
+* `ibin_iso`    hence one operation is inclusion isotone whenever both runs are defined; `ineg_iso`;
+* `itree_iso`   ★ a nested expression of ANY depth (repeated variables, constants) is inclusion isotone;
+* `ivUnary_iso` endpoint image of an increasing unary map (exp, log, sqrt: parameters).
+
+P-boxes (section `PBoxes`; `Lemmas/Iso.lean` has the rule-level facts `iso_frechetOp`, `iso_perfectOp`,
+`iso_oppositeOp`, `iso_independentOp`, `iso_naiveOp`, `sortR_mono`, `condense_mono`, `add_iso`):
+* `add_iso`, `sub_iso`        ★ every dependency f, p, o, i;
+* `mul_iso_poi`               ★ perfect / opposite / independent, all signs (four-corner rule);
+* `mul_iso_f_pos`             Frechet product of non-negative operands;
+* `neg_iso`, `numRight_iso`, `numLeft_iso`, `unary_iso`, `env_iso`, `imp_iso`  ★;
+* `ptree_iso_partial`         nested p-box expressions of any depth over those nodes.
+Each says: both runs return (the constructor accepts), both results are well formed, and they are nested.
+
+Mixed propagation (section `Mixed`):
+* `alphaCut_iso`  ★ the cut index depends on the level only (`iso_slicing` of the design);
+* `levelValue_mono` / `stackBound_mono` (in `Lemmas/Iso.lean`) ★ the generalised inverse of the cumulated mass is
+  monotone in the focal endpoints (`geninv_antitone`); `stacking_iso`;
+* `slicing_iso`   ★ slicing with a fixed number of slices and the direct interval strategy.
+
+NOT proved (kept as `C12Statement`, checked by the correspondence and the oracle only): the Frechet
+product when an operand is negative or straddles zero (negation conjugation, naive ∩ Balch), division
+(`X.div` = product with the reciprocal), `c / X`.  Not modelled here: sin/cos/tanh/abs/powers (C05),
+vertex and subinterval propagation (C13; they are NOT isotone in general — see the known findings).
+-/
+set_option linter.unusedSimpArgs false
+set_option linter.unusedVariables false
 namespace Pun.Iso
+
+section Intervals
+open Pun Pun.Arith
+
+/-! ## nested interval expressions -/
+
+/-- exact arithmetic on reals -/
+def ap : BinOp → Rat → Rat → Rat
+  | .add, x, y => x + y
+  | .sub, x, y => x - y
+  | .mul, x, y => x * y
+  | .div, x, y => x / y
+
+/-- the set an operand stands for -/
+def Mem (x : Rat) : Opd → Prop
+  | .N c => x = c
+  | .I a b => a ≤ x ∧ x ≤ b
+  | _ => False
+
+def Valid : Opd → Prop
+  | .N _ => True
+  | .I a b => a ≤ b
+  | _ => False
+
+def isN : Opd → Bool
+  | .N _ => true
+  | _ => false
+
+/-- containment of values: equal numbers, nested intervals -/
+def VSub : Opd → Opd → Prop
+  | .N c, .N c' => c = c'
+  | .I a b, .I a' b' => a' ≤ a ∧ b ≤ b'
+  | _, _ => False
+
+/-- `v` is the exact image of `x × y` under `op`: sound, and its endpoints are attained -/
+structure ExactImg (op : BinOp) (x y v : Opd) : Prop where
+  valid : Valid v
+  kind : isN v = (isN x && isN y)
+  sound : ∀ p q, Mem p x → Mem q y → Mem (ap op p q) v
+  lo : ∀ a b, v = .I a b → ∃ p q, Mem p x ∧ Mem q y ∧ ap op p q = a
+  hi : ∀ a b, v = .I a b → ∃ p q, Mem p x ∧ Mem q y ∧ ap op p q = b
+  pt : ∀ c, v = .N c → ∃ p q, Mem p x ∧ Mem q y ∧ ap op p q = c
+
+theorem binop_II_add (a b c d : Rat) (h1 : a ≤ b) (h2 : c ≤ d) :
+    binop .add (.I a b) (.I c d) = .ok (.I (a + c) (b + d)) := by
+  have : a + c ≤ b + d := by linarith
+  simp [binop, opdIV, forward, bzip, bshape, bget, IV.ofI, mkIV, bind, Except.bind, this, pure, Except.pure]
+
+theorem binop_II_sub (a b c d : Rat) (h1 : a ≤ b) (h2 : c ≤ d) :
+    binop .sub (.I a b) (.I c d) = .ok (.I (a - d) (b - c)) := by
+  have : a - d ≤ b - c := by linarith
+  simp [binop, opdIV, forward, bzip, bshape, bget, IV.ofI, mkIV, bind, Except.bind, this, pure, Except.pure]
+
+theorem binop_II_mul (a b c d : Rat) (h1 : a ≤ b) (h2 : c ≤ d) :
+    binop .mul (.I a b) (.I c d) =
+      .ok (.I (min4 (a*c) (a*d) (b*c) (b*d)) (max4 (a*c) (a*d) (b*c) (b*d))) := by
+  have hv : min4 (a*c) (a*d) (b*c) (b*d) ≤ max4 (a*c) (a*d) (b*c) (b*d) := by
+    have := mul_hull a b c d a c (le_refl _) h1 (le_refl _) h2
+    exact le_trans this.1 this.2
+  simp [binop, opdIV, forward, multiply, IV.scalar, bshape, IV.ofI, mulTable_exact a b c d h1 h2, finishTable, mkIV,
+    bind, Except.bind, hv, pure, Except.pure]
+
+theorem binop_II_div_zero (a b c d : Rat) (hz : c ≤ 0 ∧ 0 ≤ d) :
+    binop .div (.I a b) (.I c d) = .error .ZeroDivision := by
+  simp [binop, opdIV, forward, divide, straddles, IV.ofI, hz.1, hz.2, bind, Except.bind]
+
+theorem binop_II_div (a b c d : Rat) (h1 : a ≤ b) (h2 : c ≤ d) (h0 : 0 < c ∨ d < 0) :
+    ∃ l h, binop .div (.I a b) (.I c d) = .ok (.I l h) ∧ l ≤ h ∧
+      (∀ x y, a ≤ x → x ≤ b → c ≤ y → y ≤ d → l ≤ x / y ∧ x / y ≤ h) ∧
+      (∃ x y, a ≤ x ∧ x ≤ b ∧ c ≤ y ∧ y ≤ d ∧ x / y = l) ∧
+      (∃ x y, a ≤ x ∧ x ≤ b ∧ c ≤ y ∧ y ≤ d ∧ x / y = h) := by
+  obtain ⟨l, h, htab, hs, hl, hh⟩ := divTable_sound a b c d h1 h2 h0
+  have hv : l ≤ h := by
+    have := hs a c (le_refl _) h1 (le_refl _) h2
+    exact le_trans this.1 this.2
+  refine ⟨l, h, ?_, hv, hs, hl, hh⟩
+  have hst : ¬ (c ≤ 0 ∧ 0 ≤ d) := by
+    rintro ⟨p, q⟩; rcases h0 with h | h <;> linarith
+  have hst' : (decide (c ≤ 0) && decide (0 ≤ d)) = false := by
+    simp only [Bool.and_eq_false_iff, decide_eq_false_iff_not]
+    by_cases hc : c ≤ 0
+    · right; exact fun hd => hst ⟨hc, hd⟩
+    · left; exact hc
+  simp [binop, opdIV, forward, divide, straddles, IV.ofI, IV.scalar, bshape, hst', htab, unopt, finishTable, mkIV, hv,
+    bind, Except.bind, pure, Except.pure]
+
+/-- Interval with Interval -/
+theorem spec_II (op : BinOp) (a b c d : Rat) (h1 : a ≤ b) (h2 : c ≤ d) (v : Opd)
+    (h : ibin op (.I a b) (.I c d) = .ok v) : ExactImg op (.I a b) (.I c d) v := by
+  have e : ibin op (.I a b) (.I c d) = binop op (.I a b) (.I c d) := rfl
+  rw [e] at h
+  cases op with
+  | add =>
+    rw [binop_II_add a b c d h1 h2] at h
+    cases h
+    exact ⟨by simp [Valid]; linarith, rfl,
+      fun p q hp hq => by simp only [Mem, ap] at *; constructor <;> linarith,
+      fun x y hxy => by cases hxy; exact ⟨a, c, ⟨le_refl _, h1⟩, ⟨le_refl _, h2⟩, rfl⟩,
+      fun x y hxy => by cases hxy; exact ⟨b, d, ⟨h1, le_refl _⟩, ⟨h2, le_refl _⟩, rfl⟩,
+      fun c' hc => by cases hc⟩
+  | sub =>
+    rw [binop_II_sub a b c d h1 h2] at h
+    cases h
+    exact ⟨by simp [Valid]; linarith, rfl,
+      fun p q hp hq => by simp only [Mem, ap] at *; constructor <;> linarith,
+      fun x y hxy => by cases hxy; exact ⟨a, d, ⟨le_refl _, h1⟩, ⟨h2, le_refl _⟩, rfl⟩,
+      fun x y hxy => by cases hxy; exact ⟨b, c, ⟨h1, le_refl _⟩, ⟨le_refl _, h2⟩, rfl⟩,
+      fun c' hc => by cases hc⟩
+  | mul =>
+    obtain ⟨l, hh, htab, hs, hlo, hhi⟩ := mul_exact_image a b c d h1 h2
+    rw [mulTable_exact a b c d h1 h2] at htab
+    have e1 : min4 (a*c) (a*d) (b*c) (b*d) = l := congrArg Prod.fst (Option.some.inj htab)
+    have e2 : max4 (a*c) (a*d) (b*c) (b*d) = hh := congrArg Prod.snd (Option.some.inj htab)
+    rw [binop_II_mul a b c d h1 h2, e1, e2] at h
+    cases h
+    have hv : l ≤ hh := by have := hs a c (le_refl _) h1 (le_refl _) h2; exact le_trans this.1 this.2
+    exact ⟨hv, rfl, fun p q hp hq => hs p q hp.1 hp.2 hq.1 hq.2,
+      fun x y hxy => by
+        cases hxy; obtain ⟨p, q, k1, k2, k3, k4, k5⟩ := hlo; exact ⟨p, q, ⟨k1, k2⟩, ⟨k3, k4⟩, k5⟩,
+      fun x y hxy => by
+        cases hxy; obtain ⟨p, q, k1, k2, k3, k4, k5⟩ := hhi; exact ⟨p, q, ⟨k1, k2⟩, ⟨k3, k4⟩, k5⟩,
+      fun c' hc => by cases hc⟩
+  | div =>
+    by_cases hz : c ≤ 0 ∧ 0 ≤ d
+    · rw [binop_II_div_zero a b c d hz] at h; cases h
+    · have h0 : 0 < c ∨ d < 0 := by
+        by_contra hn
+        simp only [not_or, not_lt] at hn
+        exact hz hn
+      obtain ⟨l, hh, e', hv, hs, hlo, hhi⟩ := binop_II_div a b c d h1 h2 h0
+      rw [e'] at h
+      cases h
+      exact ⟨hv, rfl, fun p q hp hq => hs p q hp.1 hp.2 hq.1 hq.2,
+        fun x y hxy => by
+          cases hxy; obtain ⟨p, q, k1, k2, k3, k4, k5⟩ := hlo; exact ⟨p, q, ⟨k1, k2⟩, ⟨k3, k4⟩, k5⟩,
+        fun x y hxy => by
+          cases hxy; obtain ⟨p, q, k1, k2, k3, k4, k5⟩ := hhi; exact ⟨p, q, ⟨k1, k2⟩, ⟨k3, k4⟩, k5⟩,
+        fun c' hc => by cases hc⟩
+
+theorem exactImg_num (op : BinOp) (x y : Rat) : ExactImg op (.N x) (.N y) (.N (ap op x y)) := by
+  refine ⟨trivial, rfl, ?_, ?_, ?_, ?_⟩
+  · intro p q hp hq
+    simp only [Mem] at *
+    subst hp; subst hq; rfl
+  · intro a b e; cases e
+  · intro a b e; cases e
+  · intro c e
+    cases e
+    exact ⟨x, y, rfl, rfl, rfl⟩
+
+/-- number with number -/
+theorem spec_NN (op : BinOp) (x y : Rat) (v : Opd) (h : ibin op (.N x) (.N y) = .ok v) :
+    ExactImg op (.N x) (.N y) v := by
+  simp only [ibin, numBin] at h
+  cases op with
+  | add => cases h; exact exactImg_num .add x y
+  | sub => cases h; exact exactImg_num .sub x y
+  | mul => cases h; exact exactImg_num .mul x y
+  | div =>
+    simp only at h
+    split at h
+    · cases h
+    · cases h; exact exactImg_num .div x y
+
+
+
+theorem binop_IN (op : BinOp) (a b c : Rat) : binop op (.I a b) (.N c) = forward op (IV.ofI a b) (.N c) := by
+  simp [binop, opdIV]
+
+theorem binop_NI (op : BinOp) (a b c : Rat) : binop op (.N c) (.I a b) = reflected op (.N c) (IV.ofI a b) := by
+  simp [binop, opdIV]
+
+/-- Interval with number -/
+theorem spec_IN (op : BinOp) (a b c : Rat) (h1 : a ≤ b) (v : Opd)
+    (h : ibin op (.I a b) (.N c) = .ok v) : ExactImg op (.I a b) (.N c) v := by
+  have e : ibin op (.I a b) (.N c) = binop op (.I a b) (.N c) := rfl
+  rw [e, binop_IN] at h
+  cases op with
+  | add =>
+    have hv : a + c ≤ b + c := by linarith
+    have : forward .add (IV.ofI a b) (.N c) = .ok (.I (a + c) (b + c)) := by simp [forward, IV.ofI, mkIV, hv]
+    rw [this] at h; cases h
+    refine ⟨hv, rfl, ?_, ?_, ?_, ?_⟩
+    · intro p q hp hq; simp only [Mem, ap] at *; subst hq; constructor <;> linarith
+    · intro x y hxy; cases hxy; exact ⟨a, c, ⟨le_refl _, h1⟩, rfl, rfl⟩
+    · intro x y hxy; cases hxy; exact ⟨b, c, ⟨h1, le_refl _⟩, rfl, rfl⟩
+    · intro c' hc; cases hc
+  | sub =>
+    have hv : a - c ≤ b - c := by linarith
+    have : forward .sub (IV.ofI a b) (.N c) = .ok (.I (a - c) (b - c)) := by simp [forward, IV.ofI, mkIV, hv]
+    rw [this] at h; cases h
+    refine ⟨hv, rfl, ?_, ?_, ?_, ?_⟩
+    · intro p q hp hq; simp only [Mem, ap] at *; subst hq; constructor <;> linarith
+    · intro x y hxy; cases hxy; exact ⟨a, c, ⟨le_refl _, h1⟩, rfl, rfl⟩
+    · intro x y hxy; cases hxy; exact ⟨b, c, ⟨h1, le_refl _⟩, rfl, rfl⟩
+    · intro c' hc; cases hc
+  | mul =>
+    obtain ⟨l, hh, e', hs, hends⟩ := mulNum_exact a b c h1
+    have : forward .mul (IV.ofI a b) (.N c) = mulNum (IV.ofI a b) c := rfl
+    rw [this, e'] at h; cases h
+    have hv : l ≤ hh := by have := hs a (le_refl _) h1; exact le_trans this.1 this.2
+    refine ⟨hv, rfl, ?_, ?_, ?_, ?_⟩
+    · intro p q hp hq; simp only [Mem, ap] at *; subst hq; exact hs p hp.1 hp.2
+    · intro x y hxy; cases hxy
+      rcases hends with ⟨e1, _⟩ | ⟨e1, _⟩
+      · exact ⟨a, c, ⟨le_refl _, h1⟩, rfl, e1.symm⟩
+      · exact ⟨b, c, ⟨h1, le_refl _⟩, rfl, e1.symm⟩
+    · intro x y hxy; cases hxy
+      rcases hends with ⟨_, e2⟩ | ⟨_, e2⟩
+      · exact ⟨b, c, ⟨h1, le_refl _⟩, rfl, e2.symm⟩
+      · exact ⟨a, c, ⟨le_refl _, h1⟩, rfl, e2.symm⟩
+    · intro c' hc; cases hc
+  | div =>
+    have hd : forward .div (IV.ofI a b) (.N c) = divNum (IV.ofI a b) c := rfl
+    rw [hd] at h
+    by_cases hc0 : c = 0
+    · subst hc0; rw [divNum_zero_raises] at h; cases h
+    · obtain ⟨l, hh, e', hs, hends⟩ := divNum_exact a b c h1 hc0
+      rw [e'] at h; cases h
+      have hv : l ≤ hh := by have := hs a (le_refl _) h1; exact le_trans this.1 this.2
+      refine ⟨hv, rfl, ?_, ?_, ?_, ?_⟩
+      · intro p q hp hq; simp only [Mem, ap] at *; subst hq; exact hs p hp.1 hp.2
+      · intro x y hxy; cases hxy
+        rcases hends with ⟨e1, _⟩ | ⟨e1, _⟩
+        · exact ⟨a, c, ⟨le_refl _, h1⟩, rfl, e1.symm⟩
+        · exact ⟨b, c, ⟨h1, le_refl _⟩, rfl, e1.symm⟩
+      · intro x y hxy; cases hxy
+        rcases hends with ⟨_, e2⟩ | ⟨_, e2⟩
+        · exact ⟨b, c, ⟨h1, le_refl _⟩, rfl, e2.symm⟩
+        · exact ⟨a, c, ⟨le_refl _, h1⟩, rfl, e2.symm⟩
+      · intro c' hc; cases hc
+
+/-- number with Interval (the reflected operators) -/
+theorem spec_NI (op : BinOp) (a b c : Rat) (h1 : a ≤ b) (v : Opd)
+    (h : ibin op (.N c) (.I a b) = .ok v) : ExactImg op (.N c) (.I a b) v := by
+  have e : ibin op (.N c) (.I a b) = binop op (.N c) (.I a b) := rfl
+  rw [e, binop_NI] at h
+  cases op with
+  | add =>
+    have hv : a + c ≤ b + c := by linarith
+    have : reflected .add (.N c) (IV.ofI a b) = .ok (.I (a + c) (b + c)) := by simp [reflected, forward, IV.ofI, mkIV, hv]
+    rw [this] at h; cases h
+    refine ⟨hv, rfl, ?_, ?_, ?_, ?_⟩
+    · intro p q hp hq; simp only [Mem, ap] at *; subst hp; constructor <;> linarith
+    · intro x y hxy; cases hxy; exact ⟨c, a, rfl, ⟨le_refl _, h1⟩, by simp [ap]; ring⟩
+    · intro x y hxy; cases hxy; exact ⟨c, b, rfl, ⟨h1, le_refl _⟩, by simp [ap]; ring⟩
+    · intro c' hc; cases hc
+  | sub =>
+    obtain ⟨e', hs⟩ := rsub_exact a b c h1
+    rw [e'] at h; cases h
+    have hv : c - b ≤ c - a := by linarith
+    refine ⟨hv, rfl, ?_, ?_, ?_, ?_⟩
+    · intro p q hp hq; simp only [Mem, ap] at *; subst hp; exact hs q hq.1 hq.2
+    · intro x y hxy; cases hxy; exact ⟨c, b, rfl, ⟨h1, le_refl _⟩, rfl⟩
+    · intro x y hxy; cases hxy; exact ⟨c, a, rfl, ⟨le_refl _, h1⟩, rfl⟩
+    · intro c' hc; cases hc
+  | mul =>
+    obtain ⟨l, hh, e', hs, hends⟩ := mulNum_exact a b c h1
+    have : reflected .mul (.N c) (IV.ofI a b) = mulNum (IV.ofI a b) c := rfl
+    rw [this, e'] at h; cases h
+    have hv : l ≤ hh := by have := hs a (le_refl _) h1; exact le_trans this.1 this.2
+    refine ⟨hv, rfl, ?_, ?_, ?_, ?_⟩
+    · intro p q hp hq; simp only [Mem, ap] at *; subst hp; rw [mul_comm]; exact hs q hq.1 hq.2
+    · intro x y hxy; cases hxy
+      rcases hends with ⟨e1, _⟩ | ⟨e1, _⟩
+      · exact ⟨c, a, rfl, ⟨le_refl _, h1⟩, by simp only [ap]; rw [mul_comm]; exact e1.symm⟩
+      · exact ⟨c, b, rfl, ⟨h1, le_refl _⟩, by simp only [ap]; rw [mul_comm]; exact e1.symm⟩
+    · intro x y hxy; cases hxy
+      rcases hends with ⟨_, e2⟩ | ⟨_, e2⟩
+      · exact ⟨c, b, rfl, ⟨h1, le_refl _⟩, by simp only [ap]; rw [mul_comm]; exact e2.symm⟩
+      · exact ⟨c, a, rfl, ⟨le_refl _, h1⟩, by simp only [ap]; rw [mul_comm]; exact e2.symm⟩
+    · intro c' hc; cases hc
+  | div =>
+    by_cases hz : a ≤ 0 ∧ 0 ≤ b
+    · rw [rdiv_straddle_raises a b c hz] at h; cases h
+    · have h0 : 0 < a ∨ b < 0 := by
+        by_contra hn
+        simp only [not_or, not_lt] at hn
+        exact hz hn
+      obtain ⟨l, hh, e', hs, hends⟩ := rdiv_exact a b c h1 h0
+      rw [e'] at h; cases h
+      have hv : l ≤ hh := by have := hs a (le_refl _) h1; exact le_trans this.1 this.2
+      refine ⟨hv, rfl, ?_, ?_, ?_, ?_⟩
+      · intro p q hp hq; simp only [Mem, ap] at *; subst hp; exact hs q hq.1 hq.2
+      · intro x y hxy; cases hxy
+        rcases hends with ⟨e1, _⟩ | ⟨e1, _⟩
+        · exact ⟨c, b, rfl, ⟨h1, le_refl _⟩, e1.symm⟩
+        · exact ⟨c, a, rfl, ⟨le_refl _, h1⟩, e1.symm⟩
+      · intro x y hxy; cases hxy
+        rcases hends with ⟨_, e2⟩ | ⟨_, e2⟩
+        · exact ⟨c, a, rfl, ⟨le_refl _, h1⟩, e2.symm⟩
+        · exact ⟨c, b, rfl, ⟨h1, le_refl _⟩, e2.symm⟩
+      · intro c' hc; cases hc
+
+
+
+theorem ibin_spec (op : BinOp) (x y v : Opd) (vx : Valid x) (vy : Valid y) (h : ibin op x y = .ok v) :
+    ExactImg op x y v := by
+  cases x with
+  | N c =>
+    cases y with
+    | N d => exact spec_NN op c d v h
+    | I a b => exact spec_NI op a b c vy v h
+    | _ => exact absurd vy (by simp [Valid])
+  | I a b =>
+    cases y with
+    | N d => exact spec_IN op a b d vx v h
+    | I c d => exact spec_II op a b c d vx vy v h
+    | _ => exact absurd vy (by simp [Valid])
+  | _ => exact absurd vx (by simp [Valid])
+
+theorem Mem_of_VSub {x x' : Opd} (h : VSub x x') (p : Rat) (hp : Mem p x) : Mem p x' := by
+  cases x with
+  | N c =>
+    cases x' with
+    | N c' => simp only [VSub, Mem] at *; rw [hp, h]
+    | _ => simp [VSub] at h
+  | I a b =>
+    cases x' with
+    | I a' b' => simp only [VSub, Mem] at *; exact ⟨le_trans h.1 hp.1, le_trans hp.2 h.2⟩
+    | _ => simp [VSub] at h
+  | _ => simp [Mem] at hp
+
+theorem isN_of_VSub {x x' : Opd} (h : VSub x x') : isN x = isN x' := by
+  cases x <;> cases x' <;> simp [VSub, isN] at *
+
+/-- **one interval operation is inclusion isotone** (when both runs are defined): exact image ⇒ isotone -/
+theorem ibin_iso (op : BinOp) {x x' y y' v v' : Opd} (vx : Valid x) (vx' : Valid x') (vy : Valid y) (vy' : Valid y')
+    (hx : VSub x x') (hy : VSub y y') (h : ibin op x y = .ok v) (h' : ibin op x' y' = .ok v') :
+    VSub v v' ∧ Valid v ∧ Valid v' := by
+  have S := ibin_spec op x y v vx vy h
+  have S' := ibin_spec op x' y' v' vx' vy' h'
+  refine ⟨?_, S.valid, S'.valid⟩
+  have hk : isN v = isN v' := by rw [S.kind, S'.kind, isN_of_VSub hx, isN_of_VSub hy]
+  cases v with
+  | N c =>
+    cases v' with
+    | N c' =>
+      obtain ⟨p, q, hp, hq, e⟩ := S.pt c rfl
+      have := S'.sound p q (Mem_of_VSub hx p hp) (Mem_of_VSub hy q hq)
+      simp only [Mem] at this
+      simp only [VSub]; rw [← e, this]
+    | I a' b' => simp [isN] at hk
+    | _ => exact absurd S'.valid (by simp [Valid])
+  | I a b =>
+    cases v' with
+    | N c' => simp [isN] at hk
+    | I a' b' =>
+      obtain ⟨p, q, hp, hq, e⟩ := S.lo a b rfl
+      obtain ⟨p2, q2, hp2, hq2, e2⟩ := S.hi a b rfl
+      have k1 := S'.sound p q (Mem_of_VSub hx p hp) (Mem_of_VSub hy q hq)
+      have k2 := S'.sound p2 q2 (Mem_of_VSub hx p2 hp2) (Mem_of_VSub hy q2 hq2)
+      simp only [Mem] at k1 k2
+      simp only [VSub]
+      rw [e] at k1; rw [e2] at k2
+      exact ⟨k1.1, k2.2⟩
+    | _ => exact absurd S'.valid (by simp [Valid])
+  | _ => exact absurd S.valid (by simp [Valid])
+
+theorem ineg_iso {x x' v v' : Opd} (vx : Valid x) (vx' : Valid x') (hx : VSub x x')
+    (h : ineg x = .ok v) (h' : ineg x' = .ok v') : VSub v v' ∧ Valid v ∧ Valid v' := by
+  cases x with
+  | N c =>
+    cases x' with
+    | N c' =>
+      simp only [ineg] at h h'
+      cases h; cases h'
+      simp only [VSub] at hx ⊢
+      exact ⟨by rw [hx], trivial, trivial⟩
+    | _ => simp [VSub] at hx
+  | I a b =>
+    cases x' with
+    | I a' b' =>
+      simp only [Valid] at vx vx'
+      simp only [VSub] at hx
+      have e1 : ineg (.I a b) = .ok (.I (-b) (-a)) := by
+        have : -b ≤ -a := by linarith
+        simp [ineg, Arith.neg, mkIV, this]
+      have e2 : ineg (.I a' b') = .ok (.I (-b') (-a')) := by
+        have : -b' ≤ -a' := by linarith
+        simp [ineg, Arith.neg, mkIV, this]
+      rw [e1] at h; rw [e2] at h'
+      cases h; cases h'
+      simp only [VSub, Valid]
+      exact ⟨⟨by linarith [hx.2], by linarith [hx.1]⟩, by linarith, by linarith⟩
+    | _ => simp [VSub] at hx
+  | _ => exact absurd vx (by simp [Valid])
+
+/-- boxes: nested side by side, every side valid -/
+def BoxSub (box box' : List (Rat × Rat)) : Prop :=
+  List.Forall₂ (fun p p' => p'.1 ≤ p.1 ∧ p.2 ≤ p'.2) box box'
+
+def BoxValid (box : List (Rat × Rat)) : Prop := ∀ p ∈ box, p.1 ≤ p.2
+
+theorem bind_ok {α β : Type} {x : Except Err α} {f : α → Except Err β} {b : β}
+    (h : (x >>= f) = .ok b) : ∃ a, x = .ok a ∧ f a = .ok b := by
+  cases x with
+  | error e => simp [bind, Except.bind] at h
+  | ok a => exact ⟨a, rfl, by simpa [bind, Except.bind] using h⟩
+
+theorem boxSub_get {box box' : List (Rat × Rat)} (h : BoxSub box box') (i : Nat) (p p' : Rat × Rat)
+    (hp : box[i]? = some p) (hp' : box'[i]? = some p') : p'.1 ≤ p.1 ∧ p.2 ≤ p'.2 := by
+  induction h generalizing i with
+  | nil => simp at hp
+  | cons hab _ ih =>
+    cases i with
+    | zero => simp at hp hp'; subst hp; subst hp'; exact hab
+    | succ j => simp at hp hp'; exact ih j hp hp'
+
+/-- **a nested interval expression of any depth is inclusion isotone** (`iso_expr` of the design):
+whenever both evaluations return, the value for the sub-box is contained in the value for the box -/
+theorem itree_iso (t : ITree) {box box' : List (Rat × Rat)} (hv : BoxValid box) (hv' : BoxValid box')
+    (hb : BoxSub box box') : ∀ v v', t.eval box = .ok v → t.eval box' = .ok v' → VSub v v' ∧ Valid v ∧ Valid v' := by
+  induction t with
+  | var i =>
+    intro v v' h h'
+    simp only [ITree.eval] at h h'
+    cases hp : box[i]? with
+    | none => simp [hp] at h
+    | some p =>
+      cases hp' : box'[i]? with
+      | none => simp [hp'] at h'
+      | some p' =>
+        simp only [hp] at h; simp only [hp'] at h'
+        cases h; cases h'
+        have := boxSub_get hb i p p' hp hp'
+        exact ⟨this, hv p (List.mem_of_getElem? hp), hv' p' (List.mem_of_getElem? hp')⟩
+  | num c =>
+    intro v v' h h'
+    simp only [ITree.eval] at h h'
+    cases h; cases h'
+    exact ⟨rfl, trivial, trivial⟩
+  | bin op a b iha ihb =>
+    intro v v' h h'
+    simp only [ITree.eval] at h h'
+    obtain ⟨x, ex, h2⟩ := bind_ok h
+    obtain ⟨y, ey, h3⟩ := bind_ok h2
+    obtain ⟨x', ex', h2'⟩ := bind_ok h'
+    obtain ⟨y', ey', h3'⟩ := bind_ok h2'
+    obtain ⟨sx, vx, vx'⟩ := iha x x' ex ex'
+    obtain ⟨sy, vy, vy'⟩ := ihb y y' ey ey'
+    exact ibin_iso op vx vx' vy vy' sx sy h3 h3'
+  | neg a iha =>
+    intro v v' h h'
+    simp only [ITree.eval] at h h'
+    obtain ⟨x, ex, h2⟩ := bind_ok h
+    obtain ⟨x', ex', h2'⟩ := bind_ok h'
+    obtain ⟨sx, vx, vx'⟩ := iha x x' ex ex'
+    exact ineg_iso vx vx' sx h2 h2'
+
+
+
+
+/-- `Interval(f(lo), f(hi))` for an increasing unary map `φ` (exp, sqrt, log on their domain) -/
+theorem ivUnary_iso (φ : Rat → Rat) (hφ : ∀ x y, x ≤ y → φ x ≤ φ y) (a b a' b' : Rat) (hab : a ≤ b)
+    (ha : a' ≤ a) (hb : b ≤ b') :
+    ivUnary (φ a) (φ b) = .ok (.I (φ a) (φ b)) ∧ ivUnary (φ a') (φ b') = .ok (.I (φ a') (φ b')) ∧
+    VSub (.I (φ a) (φ b)) (.I (φ a') (φ b')) := by
+  have h1 : φ a ≤ φ b := hφ _ _ hab
+  have h2 : φ a' ≤ φ b' := hφ _ _ (le_trans ha (le_trans hab hb))
+  exact ⟨by simp [ivUnary, mkIV, h1], by simp [ivUnary, mkIV, h2], hφ _ _ ha, hφ _ _ hb⟩
+
+/-! non-vacuity: `x0*x0 + x1` on a box and a sub-box (repeated variable, sign change inside) -/
+def isIvl (r : Except Err Opd) (l h : Rat) : Bool :=
+  match r with
+  | .ok (.I a b) => decide (a = l) && decide (b = h)
+  | _ => false
+
+example : isIvl ((ITree.bin .add (.bin .mul (.var 0) (.var 0)) (.var 1)).eval [(-1, 2), (0, 1)]) (-2) 5 = true := by
+  decide +kernel
+example : isIvl ((ITree.bin .add (.bin .mul (.var 0) (.var 0)) (.var 1)).eval [(0, 1), (1/2, 1/2)]) (1/2) (3/2) = true := by
+  decide +kernel
+example : BoxSub [(0, 1), (1/2, 1/2)] [(-1, 2), (0, 1)] :=
+  List.Forall₂.cons ⟨by norm_num, by norm_num⟩ (List.Forall₂.cons ⟨by norm_num, by norm_num⟩ List.Forall₂.nil)
+example : binop .div (.I 1 2) (.I (-1) 1) = .error .ZeroDivision := binop_II_div_zero 1 2 (-1) 1 (by norm_num)
+
+end Intervals
+
+section PBoxes
+open Pun List Pun.PBox
+
+/-- the shape of every public isotonicity statement: both runs return, results well formed and nested -/
+def IsoRes (n : Nat) (r r' : Except Err PB) : Prop :=
+  ∃ R R', r = .ok R ∧ r' = .ok R' ∧ PSub R R' ∧ WF n R ∧ WF n R'
+
+theorem add_isoRes (n : Nat) (d : Dep) (hd : d ≠ .unknown) {X X' Y Y' : PB}
+    (wX : WF n X) (wX' : WF n X') (wY : WF n Y) (wY' : WF n Y') (hX : PSub X X') (hY : PSub Y Y') :
+    IsoRes n (add n d X Y) (add n d X' Y') := add_iso n d hd wX wX' wY wY' hX hY
+
+/-- **`X.mul(Y, dependency)` is isotone under perfect, opposite and independent dependence**, all signs -/
+theorem mul_iso_poi (n : Nat) (d : Dep) (hd : d = .p ∨ d = .o ∨ d = .i) {X X' Y Y' : PB}
+    (wX : WF n X) (wX' : WF n X') (wY : WF n Y) (wY' : WF n Y') (hX : PSub X X') (hY : PSub Y Y') :
+    IsoRes n (mul n d X Y) (mul n d X' Y') := by
+  rcases hd with h | h | h <;> subst h
+  · exact public_of_facts n n (Or.inl rfl) (perfectOp_facts _ n wX wY) (perfectOp_facts _ n wX' wY')
+      (iso_perfectOp _ hull_mul wX.valid wY.valid hX hY)
+  · exact public_of_facts n n (Or.inl rfl) (oppositeOp_facts _ n wX wY) (oppositeOp_facts _ n wX' wY')
+      (iso_oppositeOp _ hull_mul wX.valid wY.valid hX hY)
+  · exact public_of_facts n (n * n) (sq_cases n) (independentOp_facts _ n wX wY) (independentOp_facts _ n wX' wY')
+      (iso_independentOp _ hull_mul wX.valid wY.valid hX hY)
+
+/-! ### negation, subtraction -/
+
+theorem neg_anti : ∀ x y : Rat, x ≤ y → -y ≤ -x := fun _ _ h => neg_le_neg h
+
+theorem neg_ok (n : Nat) {X : PB} (wX : WF n X) :
+    neg n X = .ok ⟨sortR (X.right.reverse.map (- ·)), sortR (X.left.reverse.map (- ·))⟩ ∧
+    WF n ⟨sortR (X.right.reverse.map (- ·)), sortR (X.left.reverse.map (- ·))⟩ := by
+  have hl : (sortR (X.right.reverse.map (- ·))).length = n := by simp [sortR_length, wX.rlen]
+  have hr : (sortR (X.left.reverse.map (- ·))).length = n := by simp [sortR_length, wX.llen]
+  have hle : LE (sortR (X.right.reverse.map (- ·))) (sortR (X.left.reverse.map (- ·))) :=
+    sortR_mono (LE.map_anti neg_anti wX.valid.reverse)
+  exact ⟨mk_ok n true _ _ hl hr (sortR_sorted _) (sortR_sorted _) hle, ⟨hl, hr, sortR_sorted _, sortR_sorted _, hle⟩⟩
+
+/-- **negation is isotone** -/
+theorem neg_iso (n : Nat) {X X' : PB} (wX : WF n X) (wX' : WF n X') (hX : PSub X X') :
+    IsoRes n (neg n X) (neg n X') := by
+  obtain ⟨e, w⟩ := neg_ok n wX
+  obtain ⟨e', w'⟩ := neg_ok n wX'
+  refine ⟨_, _, e, e', ⟨?_, ?_⟩, w, w'⟩
+  · exact sortR_mono (LE.map_anti neg_anti hX.2.reverse)
+  · exact sortR_mono (LE.map_anti neg_anti hX.1.reverse)
+
+theorem swapPO_ne_unknown {d : Dep} (hd : d ≠ .unknown) : swapPO d ≠ .unknown := by
+  cases d <;> simp [swapPO] at * 
+
+/-- **`X.sub(Y, dependency)` is isotone** under every dependency (`-Y`, then `add` with `p ↔ o` swapped) -/
+theorem sub_iso (n : Nat) (d : Dep) (hd : d ≠ .unknown) {X X' Y Y' : PB}
+    (wX : WF n X) (wX' : WF n X') (wY : WF n Y) (wY' : WF n Y') (hX : PSub X X') (hY : PSub Y Y') :
+    IsoRes n (sub n d X Y) (sub n d X' Y') := by
+  obtain ⟨N, N', e, e', hN, wN, wN'⟩ := neg_iso n wY wY' hY
+  obtain ⟨R, R', f, f', hR, wR, wR'⟩ := add_iso n (swapPO d) (swapPO_ne_unknown hd) wX wX' wN wN' hX hN
+  exact ⟨R, R', by simp [sub, e, f, bind, Except.bind], by simp [sub, e', f', bind, Except.bind], hR, wR, wR'⟩
+
+/-! ### a real number as the other operand -/
+
+/-- `pbox_number_ops` with an increasing map of the bounds -/
+theorem numberOp_iso_mono (n : Nat) (f : Rat → Rat → Rat) (c : Rat) (hf : ∀ x y, x ≤ y → f x c ≤ f y c)
+    {X X' : PB} (wX : WF n X) (wX' : WF n X') (hX : PSub X X') :
+    IsoRes n (numberOp n f X c) (numberOp n f X' c) := by
+  have key : ∀ {P : PB}, WF n P → numberOp n f P c = .ok ⟨sortR (P.left.map (f · c)), sortR (P.right.map (f · c))⟩ ∧
+      WF n ⟨sortR (P.left.map (f · c)), sortR (P.right.map (f · c))⟩ := by
+    intro P wP
+    have hl : (sortR (P.left.map (f · c))).length = n := by simp [sortR_length, wP.llen]
+    have hr : (sortR (P.right.map (f · c))).length = n := by simp [sortR_length, wP.rlen]
+    have hle : LE (sortR (P.left.map (f · c))) (sortR (P.right.map (f · c))) := sortR_mono (LE.map hf wP.valid)
+    exact ⟨mk_ok n true _ _ hl hr (sortR_sorted _) (sortR_sorted _) hle, ⟨hl, hr, sortR_sorted _, sortR_sorted _, hle⟩⟩
+  obtain ⟨e, w⟩ := key wX
+  obtain ⟨e', w'⟩ := key wX'
+  exact ⟨_, _, e, e', ⟨sortR_mono (LE.map hf hX.1), sortR_mono (LE.map hf hX.2)⟩, w, w'⟩
+
+/-- `pbox_number_ops` with a decreasing map of the bounds: the constructor switches the two lists -/
+theorem numberOp_iso_anti (n : Nat) (f : Rat → Rat → Rat) (c : Rat) (hf : ∀ x y, x ≤ y → f y c ≤ f x c)
+    {X X' : PB} (wX : WF n X) (wX' : WF n X') (hX : PSub X X') :
+    IsoRes n (numberOp n f X c) (numberOp n f X' c) := by
+  have key : ∀ {P : PB}, WF n P → numberOp n f P c = .ok ⟨sortR (P.right.map (f · c)), sortR (P.left.map (f · c))⟩ ∧
+      WF n ⟨sortR (P.right.map (f · c)), sortR (P.left.map (f · c))⟩ := by
+    intro P wP
+    have hl : (sortR (P.left.map (f · c))).length = n := by simp [sortR_length, wP.llen]
+    have hr : (sortR (P.right.map (f · c))).length = n := by simp [sortR_length, wP.rlen]
+    have hge : LE (sortR (P.right.map (f · c))) (sortR (P.left.map (f · c))) := sortR_mono (LE.map_anti hf wP.valid)
+    exact ⟨mk_ok_switched n _ _ hl hr (sortR_sorted _) (sortR_sorted _) hge, ⟨hr, hl, sortR_sorted _, sortR_sorted _, hge⟩⟩
+  obtain ⟨e, w⟩ := key wX
+  obtain ⟨e', w'⟩ := key wX'
+  exact ⟨_, _, e, e', ⟨sortR_mono (LE.map_anti hf hX.2), sortR_mono (LE.map_anti hf hX.1)⟩, w, w'⟩
+
+/-- multiplication by a constant of either sign -/
+theorem numberOp_mul_iso (n : Nat) (c : Rat) {X X' : PB} (wX : WF n X) (wX' : WF n X') (hX : PSub X X') :
+    IsoRes n (numberOp n (· * ·) X c) (numberOp n (· * ·) X' c) := by
+  rcases le_total 0 c with h | h
+  · exact numberOp_iso_mono n _ c (fun x y hxy => mul_le_mul_of_nonneg_right hxy h) wX wX' hX
+  · exact numberOp_iso_anti n _ c (fun x y hxy => mul_le_mul_of_nonpos_right hxy h) wX wX' hX
+
+/-- **`X op c` is isotone** for `+ − ×` and for `÷` by a non-zero number -/
+theorem numRight_iso (n : Nat) (o : Op) (c : Rat) (hc : o = .div → c ≠ 0) {X X' : PB}
+    (wX : WF n X) (wX' : WF n X') (hX : PSub X X') : IsoRes n (numRight n o X c) (numRight n o X' c) := by
+  cases o with
+  | add => exact numberOp_iso_mono n _ c (fun x y h => by simpa using h) wX wX' hX
+  | sub => exact numberOp_iso_mono n _ (-c) (fun x y h => by simpa using h) wX wX' hX
+  | mul => exact numberOp_mul_iso n c wX wX' hX
+  | div =>
+    have := hc rfl
+    simp only [numRight, this, if_false]
+    exact numberOp_mul_iso n (1 / c) wX wX' hX
+
+/-- **`c op X` is isotone** for `+ − ×` -/
+theorem numLeft_iso (n : Nat) (o : Op) (c : Rat) (ho : o ≠ .div) {X X' : PB}
+    (wX : WF n X) (wX' : WF n X') (hX : PSub X X') : IsoRes n (numLeft n o c X) (numLeft n o c X') := by
+  cases o with
+  | add => exact numberOp_iso_mono n _ c (fun x y h => by simpa using h) wX wX' hX
+  | sub =>
+    obtain ⟨N, N', e, e', hN, wN, wN'⟩ := neg_iso n wX wX' hX
+    obtain ⟨R, R', f, f', hR, wR, wR'⟩ := numberOp_iso_mono n (· + ·) c (fun x y h => by simpa using h) wN wN' hN
+    exact ⟨R, R', by simp [numLeft, e, f, bind, Except.bind], by simp [numLeft, e', f', bind, Except.bind], hR, wR, wR'⟩
+  | mul => exact numberOp_mul_iso n c wX wX' hX
+  | div => exact absurd rfl ho
+
+/-! ### unary maps, envelope, imposition -/
+
+/-- **`_unary_template(f)` with an increasing `f`** (exp, sqrt, log on their domains) -/
+theorem unary_iso (n : Nat) (φ : Rat → Rat) (hφ : ∀ x y, x ≤ y → φ x ≤ φ y) {X X' : PB}
+    (wX : WF n X) (wX' : WF n X') (hX : PSub X X') :
+    IsoRes n (unaryTemplate n (X.left.map φ) (X.right.map φ)) (unaryTemplate n (X'.left.map φ) (X'.right.map φ)) := by
+  have key : ∀ {P : PB}, WF n P → unaryTemplate n (P.left.map φ) (P.right.map φ) = .ok ⟨P.left.map φ, P.right.map φ⟩ ∧
+      WF n ⟨P.left.map φ, P.right.map φ⟩ := by
+    intro P wP
+    have hl : (P.left.map φ).length = n := by simp [wP.llen]
+    have hr : (P.right.map φ).length = n := by simp [wP.rlen]
+    have sl : (P.left.map φ).Pairwise (· ≤ ·) := by
+      rw [List.pairwise_map]; exact wP.lsorted.imp (fun h => hφ _ _ h)
+    have sr : (P.right.map φ).Pairwise (· ≤ ·) := by
+      rw [List.pairwise_map]; exact wP.rsorted.imp (fun h => hφ _ _ h)
+    exact ⟨mk_ok n false _ _ hl hr sl sr (LE.map hφ wP.valid), ⟨hl, hr, sl, sr, LE.map hφ wP.valid⟩⟩
+  obtain ⟨e, w⟩ := key wX
+  obtain ⟨e', w'⟩ := key wX'
+  exact ⟨_, _, e, e', ⟨LE.map hφ hX.1, LE.map hφ hX.2⟩, w, w'⟩
+
+theorem min_mono2 : Mono2 min := fun _ _ _ _ h1 h2 => min_le_min h1 h2
+theorem max_mono2 : Mono2 max := fun _ _ _ _ h1 h2 => max_le_max h1 h2
+
+theorem zipWith_sorted (f : Rat → Rat → Rat) (hf : Mono2 f) (a b : List Rat) (sa : a.Pairwise (· ≤ ·))
+    (sb : b.Pairwise (· ≤ ·)) : (List.zipWith f a b).Pairwise (· ≤ ·) := by
+  rw [List.pairwise_iff_getElem]
+  intro i j hi hj hij
+  simp only [List.length_zipWith, lt_min_iff] at hi hj
+  simp only [List.getElem_zipWith]
+  exact hf _ _ _ _ ((List.pairwise_iff_getElem.mp sa) i j hi.1 hj.1 hij) ((List.pairwise_iff_getElem.mp sb) i j hi.2 hj.2 hij)
+
+theorem zipWith_min_le_max {a A b B : List Rat} (h1 : LE a A) (h2 : LE b B) :
+    LE (List.zipWith min a b) (List.zipWith max A B) := by
+  induction h1 generalizing b B with
+  | nil => simp
+  | cons hxy _ ih =>
+    cases h2 with
+    | nil => simp
+    | cons hcd htl =>
+      simp only [List.zipWith_cons_cons]
+      exact List.Forall₂.cons (le_trans (min_le_left _ _) (le_trans hxy (le_max_left _ _))) (ih htl)
+
+/-- **envelope is isotone** -/
+theorem env_iso (n : Nat) {X X' Y Y' : PB} (wX : WF n X) (wX' : WF n X') (wY : WF n Y) (wY' : WF n Y')
+    (hX : PSub X X') (hY : PSub Y Y') : IsoRes n (env n X Y) (env n X' Y') := by
+  have key : ∀ {P Q : PB}, WF n P → WF n Q → env n P Q = .ok ⟨List.zipWith min P.left Q.left, List.zipWith max P.right Q.right⟩ ∧
+      WF n ⟨List.zipWith min P.left Q.left, List.zipWith max P.right Q.right⟩ := by
+    intro P Q wP wQ
+    have hl : (List.zipWith min P.left Q.left).length = n := by simp [wP.llen, wQ.llen]
+    have hr : (List.zipWith max P.right Q.right).length = n := by simp [wP.rlen, wQ.rlen]
+    have sl := zipWith_sorted min min_mono2 _ _ wP.lsorted wQ.lsorted
+    have sr := zipWith_sorted max max_mono2 _ _ wP.rsorted wQ.rsorted
+    have hle := zipWith_min_le_max wP.valid wQ.valid
+    exact ⟨mk_ok n false _ _ hl hr sl sr hle, ⟨hl, hr, sl, sr, hle⟩⟩
+  obtain ⟨e, w⟩ := key wX wY
+  obtain ⟨e', w'⟩ := key wX' wY'
+  exact ⟨_, _, e, e', ⟨LE.zipWith min_mono2 hX.1 hY.1, LE.zipWith max_mono2 hX.2 hY.2⟩, w, w'⟩
+
+theorem anyGt_false_of_LE {u d : List Rat} (h : LE u d) : (u.zip d).any (fun p => decide (p.1 > p.2)) = false :=
+  noCross_of_LE h
+
+theorem LE_of_anyGt_false {u d : List Rat} (hlen : u.length = d.length)
+    (h : (u.zip d).any (fun p => decide (p.1 > p.2)) = false) : LE u d := by
+  induction u generalizing d with
+  | nil => cases d with
+    | nil => exact List.Forall₂.nil
+    | cons _ _ => simp at hlen
+  | cons a s ih =>
+    cases d with
+    | nil => simp at hlen
+    | cons b t =>
+      simp only [List.zip_cons_cons, List.any_cons, Bool.or_eq_false_iff, decide_eq_false_iff_not, not_lt] at h
+      exact List.Forall₂.cons h.1 (ih (by simpa using hlen) h.2)
+
+/-- **imposition is isotone**: when the narrower operands have an imposition, so do the wider ones, and it contains it -/
+theorem imp_iso (n : Nat) {X X' Y Y' : PB} (wX : WF n X) (wX' : WF n X') (wY : WF n Y) (wY' : WF n Y')
+    (hX : PSub X X') (hY : PSub Y Y') (R : PB) (h : imp n X Y = .ok R) :
+    IsoRes n (imp n X Y) (imp n X' Y') := by
+  have key : ∀ {P Q : PB}, WF n P → WF n Q → LE (List.zipWith max P.left Q.left) (List.zipWith min P.right Q.right) →
+      imp n P Q = .ok ⟨List.zipWith max P.left Q.left, List.zipWith min P.right Q.right⟩ ∧
+      WF n ⟨List.zipWith max P.left Q.left, List.zipWith min P.right Q.right⟩ := by
+    intro P Q wP wQ hle
+    have hl : (List.zipWith max P.left Q.left).length = n := by simp [wP.llen, wQ.llen]
+    have hr : (List.zipWith min P.right Q.right).length = n := by simp [wP.rlen, wQ.rlen]
+    have sl := zipWith_sorted max max_mono2 _ _ wP.lsorted wQ.lsorted
+    have sr := zipWith_sorted min min_mono2 _ _ wP.rsorted wQ.rsorted
+    refine ⟨?_, ⟨hl, hr, sl, sr, hle⟩⟩
+    simp only [imp, anyGt_false_of_LE hle, Bool.false_eq_true, if_false]
+    exact mk_ok n true _ _ hl hr sl sr hle
+  -- the narrower pair is compatible because its imposition exists
+  have hc : LE (List.zipWith max X.left Y.left) (List.zipWith min X.right Y.right) := by
+    apply LE_of_anyGt_false (by simp [wX.llen, wY.llen, wX.rlen, wY.rlen])
+    by_contra hne
+    simp only [imp, Bool.not_eq_false] at h hne
+    simp [hne] at h
+  have hc' : LE (List.zipWith max X'.left Y'.left) (List.zipWith min X'.right Y'.right) :=
+    LE.trans (LE.zipWith max_mono2 hX.1 hY.1) (LE.trans hc (LE.zipWith min_mono2 hX.2 hY.2))
+  obtain ⟨e, w⟩ := key wX wY hc
+  obtain ⟨e', w'⟩ := key wX' wY' hc'
+  exact ⟨_, _, e, e', ⟨LE.zipWith max_mono2 hX.1 hY.1, LE.zipWith min_mono2 hX.2 hY.2⟩, w, w'⟩
+
+
+
+/-! ### Frechet product of non-negative operands -/
+
+/-- non-negative operand with a positive upper end -/
+structure PosBox (P : PB) : Prop where
+  lnn : ∀ v ∈ P.left, 0 ≤ v
+  rnn : ∀ v ∈ P.right, 0 ≤ v
+  hipos : 0 < hi P
+
+theorem straddlesZero_false_of_nonneg {P : PB} (h : ∀ v ∈ P.left, 0 ≤ v) : straddlesZero P = false := by
+  unfold straddlesZero
+  have : ¬ minL 0 P.left < 0 := by
+    by_cases hne : P.left = []
+    · simp [hne, minL]
+    · exact not_lt.mpr (h _ (minL_spec 0 P.left hne).1)
+  simp [this]
+
+theorem frechetMul_pos (n : Nat) {X Y : PB} (pX : PosBox X) (pY : PosBox Y) :
+    frechetMul n X Y = mk n false (frechetOp mulPos X Y).1 (frechetOp mulPos X Y).2 := by
+  have e : frechetOp (· * ·) X Y = frechetOp mulPos X Y := by
+    unfold frechetOp
+    rw [frechetLeftRaw_mul_eq X.left Y.left pX.lnn pY.lnn, frechetRightRaw_mul_eq X.right Y.right pX.rnn pY.rnn]
+  have hx : ¬ hi X ≤ 0 := not_le.mpr pX.hipos
+  have hy : ¬ hi Y ≤ 0 := not_le.mpr pY.hipos
+  simp only [frechetMul, straddlesZero_false_of_nonneg pX.lnn, straddlesZero_false_of_nonneg pY.lnn, Bool.or_self,
+    Bool.false_eq_true, if_false, frechetMulNoStraddle, hx, hy, decide_false, classicFrechet, e]
+
+/-- **`X.mul(Y, 'f')` is isotone on non-negative operands** (the monotone quadrant; other sign classes go through
+negation, the zero-straddling ones through the naive ∩ Balch branch: tie and oracle only) -/
+theorem mul_iso_f_pos (n : Nat) {X X' Y Y' : PB}
+    (wX : WF n X) (wX' : WF n X') (wY : WF n Y) (wY' : WF n Y') (pX : PosBox X) (pX' : PosBox X') (pY : PosBox Y)
+    (pY' : PosBox Y') (hX : PSub X X') (hY : PSub Y Y') : IsoRes n (mul n .f X Y) (mul n .f X' Y') := by
+  simp only [mul, frechetMul_pos n pX pY, frechetMul_pos n pX' pY']
+  exact public_of_facts n n (Or.inl rfl) (frechetOp_facts _ mulPos_mono2 n wX wY) (frechetOp_facts _ mulPos_mono2 n wX' wY')
+    (iso_frechetOp _ mulPos_mono2 hX hY)
+
+/-! ### nested p-box expressions -/
+
+/-- the nodes whose isotonicity is proved for ALL well-formed operands -/
+def PTree.Proven : PTree → Prop
+  | .var _ => True
+  | .bin o d a b => (((o = .add ∨ o = .sub) ∧ d ≠ .unknown) ∨ (o = .mul ∧ (d = .p ∨ d = .o ∨ d = .i))) ∧ a.Proven ∧ b.Proven
+  | .numR o a c => (o = .div → c ≠ 0) ∧ a.Proven
+  | .numL o _ a => o ≠ .div ∧ a.Proven
+  | .neg a => a.Proven
+  | .env a b => a.Proven ∧ b.Proven
+  | .imp a b => a.Proven ∧ b.Proven
+
+theorem isoRes_pick {n : Nat} {r r' : Except Err PB} (h : IsoRes n r r') (R : PB) (e : r = .ok R) :
+    ∃ R', r' = .ok R' ∧ PSub R R' ∧ WF n R ∧ WF n R' := by
+  obtain ⟨R0, R0', e0, e0', hs, w, w'⟩ := h
+  rw [e0] at e
+  cases e
+  exact ⟨R0', e0', hs, w, w'⟩
+
+theorem vars_get {n : Nat} {vars vars' : List PB} (h : List.Forall₂ PSub vars vars') (hw : ∀ P ∈ vars, WF n P)
+    (hw' : ∀ P ∈ vars', WF n P) (i : Nat) (P : PB) (hp : vars[i]? = some P) :
+    ∃ P', vars'[i]? = some P' ∧ PSub P P' ∧ WF n P ∧ WF n P' := by
+  induction h generalizing i with
+  | nil => simp at hp
+  | @cons a a' t t' hab _ ih =>
+    cases i with
+    | zero =>
+      simp at hp; subst hp
+      exact ⟨a', by simp, hab, hw a (by simp), hw' a' (by simp)⟩
+    | succ j =>
+      simp at hp
+      obtain ⟨P', e, r⟩ := ih (fun Q hQ => hw Q (by simp [hQ])) (fun Q hQ => hw' Q (by simp [hQ])) j hp
+      exact ⟨P', by simpa using e, r⟩
+
+/-- **nested p-box expressions of any depth are isotone** over the proven nodes: `add`/`sub` under every dependency,
+`mul` under perfect / opposite / independent dependence, number operands, negation, envelope, imposition.
+If the run on the contained operands returns, so does the run on the containing ones, and its result contains it. -/
+theorem ptree_iso_partial (n : Nat) (t : PTree) (ht : t.Proven) {vars vars' : List PB}
+    (h : List.Forall₂ PSub vars vars') (hw : ∀ P ∈ vars, WF n P) (hw' : ∀ P ∈ vars', WF n P) :
+    ∀ R, t.eval n vars = .ok R → ∃ R', t.eval n vars' = .ok R' ∧ PSub R R' ∧ WF n R ∧ WF n R' := by
+  induction t with
+  | var i =>
+    intro R e
+    simp only [PTree.eval] at e ⊢
+    cases hp : vars[i]? with
+    | none => simp [hp] at e
+    | some P =>
+      simp only [hp] at e
+      have hPR : P = R := by injection e
+      subst hPR
+      obtain ⟨P', e', r⟩ := vars_get h hw hw' i P hp
+      exact ⟨P', by simp [e'], r⟩
+  | bin o d a b iha ihb =>
+    intro R e
+    simp only [PTree.eval] at e ⊢
+    obtain ⟨x, ex, e2⟩ := bind_ok e
+    obtain ⟨y, ey, e3⟩ := bind_ok e2
+    obtain ⟨x', ex', sx, wx, wx'⟩ := iha ht.2.1 x ex
+    obtain ⟨y', ey', sy, wy, wy'⟩ := ihb ht.2.2 y ey
+    have key : IsoRes n (binop n o d x y) (binop n o d x' y') := by
+      rcases ht.1 with ⟨ho, hd⟩ | ⟨ho, hd⟩
+      · rcases ho with ho | ho <;> subst ho
+        · exact add_iso n d hd wx wx' wy wy' sx sy
+        · exact sub_iso n d hd wx wx' wy wy' sx sy
+      · subst ho; exact mul_iso_poi n d hd wx wx' wy wy' sx sy
+    obtain ⟨R', eR', r⟩ := isoRes_pick key R e3
+    exact ⟨R', by simp [ex', ey', eR', bind, Except.bind], r⟩
+  | numR o a c iha =>
+    intro R e
+    simp only [PTree.eval] at e ⊢
+    obtain ⟨x, ex, e2⟩ := bind_ok e
+    obtain ⟨x', ex', sx, wx, wx'⟩ := iha ht.2 x ex
+    obtain ⟨R', eR', r⟩ := isoRes_pick (numRight_iso n o c ht.1 wx wx' sx) R e2
+    exact ⟨R', by simp [ex', eR', bind, Except.bind], r⟩
+  | numL o c a iha =>
+    intro R e
+    simp only [PTree.eval] at e ⊢
+    obtain ⟨x, ex, e2⟩ := bind_ok e
+    obtain ⟨x', ex', sx, wx, wx'⟩ := iha ht.2 x ex
+    obtain ⟨R', eR', r⟩ := isoRes_pick (numLeft_iso n o c ht.1 wx wx' sx) R e2
+    exact ⟨R', by simp [ex', eR', bind, Except.bind], r⟩
+  | neg a iha =>
+    intro R e
+    simp only [PTree.eval] at e ⊢
+    obtain ⟨x, ex, e2⟩ := bind_ok e
+    obtain ⟨x', ex', sx, wx, wx'⟩ := iha ht x ex
+    obtain ⟨R', eR', r⟩ := isoRes_pick (neg_iso n wx wx' sx) R e2
+    exact ⟨R', by simp [ex', eR', bind, Except.bind], r⟩
+  | env a b iha ihb =>
+    intro R e
+    simp only [PTree.eval] at e ⊢
+    obtain ⟨x, ex, e2⟩ := bind_ok e
+    obtain ⟨y, ey, e3⟩ := bind_ok e2
+    obtain ⟨x', ex', sx, wx, wx'⟩ := iha ht.1 x ex
+    obtain ⟨y', ey', sy, wy, wy'⟩ := ihb ht.2 y ey
+    obtain ⟨R', eR', r⟩ := isoRes_pick (env_iso n wx wx' wy wy' sx sy) R e3
+    exact ⟨R', by simp [ex', ey', eR', bind, Except.bind], r⟩
+  | imp a b iha ihb =>
+    intro R e
+    simp only [PTree.eval] at e ⊢
+    obtain ⟨x, ex, e2⟩ := bind_ok e
+    obtain ⟨y, ey, e3⟩ := bind_ok e2
+    obtain ⟨x', ex', sx, wx, wx'⟩ := iha ht.1 x ex
+    obtain ⟨y', ey', sy, wy, wy'⟩ := ihb ht.2 y ey
+    obtain ⟨R', eR', r⟩ := isoRes_pick (imp_iso n wx wx' wy wy' sx sy R e3) R e3
+    exact ⟨R', by simp [ex', ey', eR', bind, Except.bind], r⟩
+
+
+/-! non-vacuity: two-step operands, a strict widening, every dependency computes -/
+example : WF 2 ⟨[1, 2], [2, 4]⟩ := ⟨rfl, rfl, by decide, by decide, by decide⟩
+example : PSub ⟨[1, 2], [2, 4]⟩ ⟨[0, 2], [3, 5]⟩ := by constructor <;> decide
+example : IsoRes 2 (add 2 .f ⟨[1, 2], [2, 4]⟩ ⟨[-1, 0], [0, 3]⟩) (add 2 .f ⟨[0, 2], [3, 5]⟩ ⟨[-1, 0], [0, 3]⟩) :=
+  add_iso 2 .f (by simp) ⟨rfl, rfl, by decide, by decide, by decide⟩ ⟨rfl, rfl, by decide, by decide, by decide⟩
+    ⟨rfl, rfl, by decide, by decide, by decide⟩ ⟨rfl, rfl, by decide, by decide, by decide⟩
+    (by constructor <;> decide) (PSub.refl _)
+example : IsoRes 2 (mul 2 .o ⟨[1, 2], [2, 4]⟩ ⟨[-1, 0], [0, 3]⟩) (mul 2 .o ⟨[0, 2], [3, 5]⟩ ⟨[-1, 0], [0, 3]⟩) :=
+  mul_iso_poi 2 .o (Or.inr (Or.inl rfl)) ⟨rfl, rfl, by decide, by decide, by decide⟩ ⟨rfl, rfl, by decide, by decide, by decide⟩
+    ⟨rfl, rfl, by decide, by decide, by decide⟩ ⟨rfl, rfl, by decide, by decide, by decide⟩
+    (by constructor <;> decide) (PSub.refl _)
+example : PosBox ⟨[1, 2], [2, 4]⟩ := ⟨by decide, by decide, by decide +kernel⟩
+example : (PTree.bin .sub .p (.env (.var 0) (.var 1)) (.numR .mul (.var 1) (-2))).Proven := by
+  simp [PTree.Proven]
+
+end PBoxes
+
+section Mixed
+open Pun Pun.PBox
+
+/-! ## alpha-cuts, stacking, slicing -/
+
+theorem mapM_forall₂ {α β : Type} (f f' : α → Except Err β) (S : α → α → Prop) (R : β → β → Prop)
+    {l l' : List α} (hl : List.Forall₂ S l l')
+    (h : ∀ a a', S a a' → ∀ b b', f a = .ok b → f' a' = .ok b' → R b b') :
+    ∀ bs bs', l.mapM f = .ok bs → l'.mapM f' = .ok bs' → List.Forall₂ R bs bs' := by
+  induction hl with
+  | nil =>
+    intro bs bs' e e'
+    simp only [List.mapM_nil, pure, Except.pure] at e e'
+    cases e; cases e'; exact List.Forall₂.nil
+  | @cons a a' t t' hS _ ih =>
+    intro bs bs' e e'
+    rw [List.mapM_cons] at e e'
+    obtain ⟨b, eb, e2⟩ := bind_ok e
+    obtain ⟨r, er, e3⟩ := bind_ok e2
+    obtain ⟨b', eb', e2'⟩ := bind_ok e'
+    obtain ⟨r', er', e3'⟩ := bind_ok e2'
+    simp only [pure, Except.pure] at e3 e3'
+    cases e3; cases e3'
+    exact List.Forall₂.cons (h a a' hS b b' eb eb') (ih r r' er er')
+
+/-- **the cut index depends on the level and the grid only**; the cut of a wider p-box at the same level is wider -/
+theorem alphaCut_iso (pv : List Rat) (a : Rat) {P P' : PB} (hP : PSub P P') (c c' : Rat × Rat)
+    (e : alphaCut pv P a = .ok c) (e' : alphaCut pv P' a = .ok c') :
+    (c'.1 ≤ c.1 ∧ c.2 ≤ c'.2) ∧ c.1 ≤ c.2 ∧ c'.1 ≤ c'.2 := by
+  unfold alphaCut at e e'
+  simp only at e e'
+  cases hl : P.left[nearestIdx pv a]? with
+  | none => simp [hl] at e
+  | some l =>
+  cases hr : P.right[nearestIdx pv a]? with
+  | none => simp [hl, hr] at e
+  | some r =>
+  cases hl' : P'.left[nearestIdx pv a]? with
+  | none => simp [hl'] at e'
+  | some l' =>
+  cases hr' : P'.right[nearestIdx pv a]? with
+  | none => simp [hl', hr'] at e'
+  | some r' =>
+    simp only [hl, hr] at e
+    simp only [hl', hr'] at e'
+    split at e
+    · rename_i hv
+      split at e'
+      · rename_i hv'
+        cases e; cases e'
+        obtain ⟨i1, h1⟩ := List.getElem?_eq_some_iff.mp hl
+        obtain ⟨i2, h2⟩ := List.getElem?_eq_some_iff.mp hr
+        obtain ⟨i3, h3⟩ := List.getElem?_eq_some_iff.mp hl'
+        obtain ⟨i4, h4⟩ := List.getElem?_eq_some_iff.mp hr'
+        have k1 := hP.1.getElem _ i3 i1
+        have k2 := hP.2.getElem _ i2 i4
+        rw [h1, h3] at k1; rw [h2, h4] at k2
+        exact ⟨⟨k1, k2⟩, hv, hv'⟩
+      · cases e'
+    · cases e
+
+theorem zip_forall₂ {vars vars' : List PB} (h : List.Forall₂ PSub vars vars') (row : List Rat) :
+    List.Forall₂ (fun (x x' : PB × Rat) => PSub x.1 x'.1 ∧ x.2 = x'.2) (vars.zip row) (vars'.zip row) := by
+  induction h generalizing row with
+  | nil => simp
+  | cons hab _ ih =>
+    cases row with
+    | nil => simp
+    | cons a r => simp only [List.zip_cons_cons]; exact List.Forall₂.cons ⟨hab, rfl⟩ (ih r)
+
+theorem forall₂_and_valid {box box' : List (Rat × Rat)}
+    (h : List.Forall₂ (fun c c' => (c'.1 ≤ c.1 ∧ c.2 ≤ c'.2) ∧ c.1 ≤ c.2 ∧ c'.1 ≤ c'.2) box box') :
+    BoxSub box box' ∧ BoxValid box ∧ BoxValid box' := by
+  induction h with
+  | nil => exact ⟨List.Forall₂.nil, fun _ h => by simp at h, fun _ h => by simp at h⟩
+  | @cons c c' t t' hc _ ih =>
+    obtain ⟨i1, i2, i3⟩ := ih
+    refine ⟨List.Forall₂.cons hc.1 i1, ?_, ?_⟩
+    · intro p hp
+      rcases List.mem_cons.mp hp with e | hp'
+      · subst e; exact hc.2.1
+      · exact i2 p hp'
+    · intro p hp
+      rcases List.mem_cons.mp hp with e | hp'
+      · subst e; exact hc.2.2
+      · exact i3 p hp'
+
+theorem cutBox_iso (pv : List Rat) {vars vars' : List PB} (h : List.Forall₂ PSub vars vars') (row : List Rat)
+    (box box' : List (Rat × Rat)) (e : cutBox pv vars row = .ok box) (e' : cutBox pv vars' row = .ok box') :
+    BoxSub box box' ∧ BoxValid box ∧ BoxValid box' := by
+  unfold cutBox at e e'
+  apply forall₂_and_valid
+  refine mapM_forall₂ _ _ _ _ (zip_forall₂ h row) ?_ box box' e e'
+  intro x x' hx c c' hc hc'
+  rw [← hx.2] at hc'
+  exact alphaCut_iso pv x.2 hx.1 c c' hc hc'
+
+theorem asIvl_iso {v v' : Arith.Opd} (h : VSub v v') (hv : Valid v) (hv' : Valid v') (c c' : Rat × Rat)
+    (e : asIvl v = .ok c) (e' : asIvl v' = .ok c') : (c'.1 ≤ c.1 ∧ c.2 ≤ c'.2) ∧ c.1 ≤ c.2 ∧ c'.1 ≤ c'.2 := by
+  cases v with
+  | N x =>
+    cases v' with
+    | N x' =>
+      simp only [asIvl] at e e'; cases e; cases e'
+      simp only [VSub] at h; subst h
+      exact ⟨⟨le_refl _, le_refl _⟩, le_refl _, le_refl _⟩
+    | _ => simp [VSub] at h
+  | I a b =>
+    cases v' with
+    | I a' b' =>
+      simp only [asIvl] at e e'; cases e; cases e'
+      exact ⟨h, hv, hv'⟩
+    | _ => simp [VSub] at h
+  | _ => exact absurd hv (by simp [Valid])
+
+theorem forall₂_eq_self {α : Type} (l : List α) : List.Forall₂ (· = ·) l l := List.forall₂_refl l
+
+/-- the focal intervals handed to `stacking` are nested, row by row -/
+theorem sliceImages_iso (pv levels : List Rat) (t : ITree) {vars vars' : List PB} (h : List.Forall₂ PSub vars vars')
+    (im im' : List (Rat × Rat)) (e : sliceImages pv levels t vars = .ok im) (e' : sliceImages pv levels t vars' = .ok im') :
+    List.Forall₂ (fun c c' => (c'.1 ≤ c.1 ∧ c.2 ≤ c'.2) ∧ c.1 ≤ c.2 ∧ c'.1 ≤ c'.2) im im' := by
+  unfold sliceImages at e e'
+  rw [← h.length_eq] at e'
+  refine mapM_forall₂ _ _ (· = ·) _ (forall₂_eq_self _) ?_ im im' e e'
+  intro row row' hrow c c' hc hc'
+  subst hrow
+  obtain ⟨box, eb, h2⟩ := bind_ok hc
+  obtain ⟨v, ev, h3⟩ := bind_ok h2
+  obtain ⟨box', eb', h2'⟩ := bind_ok hc'
+  obtain ⟨v', ev', h3'⟩ := bind_ok h2'
+  obtain ⟨bs, bv, bv'⟩ := cutBox_iso pv h row box box' eb eb'
+  obtain ⟨sv, vv, vv'⟩ := itree_iso t bv bv' bs v v' ev ev'
+  exact asIvl_iso sv vv vv' c c' h3 h3'
+
+theorem split_images {im im' : List (Rat × Rat)}
+    (h : List.Forall₂ (fun c c' => (c'.1 ≤ c.1 ∧ c.2 ≤ c'.2) ∧ c.1 ≤ c.2 ∧ c'.1 ≤ c'.2) im im') :
+    LE (im'.map Prod.fst) (im.map Prod.fst) ∧ LE (im.map Prod.snd) (im'.map Prod.snd) ∧
+    LE (im.map Prod.fst) (im.map Prod.snd) ∧ LE (im'.map Prod.fst) (im'.map Prod.snd) := by
+  induction h with
+  | nil => simp
+  | cons hc _ ih =>
+    obtain ⟨i1, i2, i3, i4⟩ := ih
+    simp only [List.map_cons]
+    exact ⟨List.Forall₂.cons hc.1.1 i1, List.Forall₂.cons hc.1.2 i2, List.Forall₂.cons hc.2.1 i3, List.Forall₂.cons hc.2.2 i4⟩
+
+/-- **stacking is isotone**: same weights `≥ 0`, grid levels `> 0`; wider focal intervals give a wider p-box -/
+theorem stacking_iso (g lo hi lo' hi' wts : List Rat) (hw : ∀ w ∈ wts, 0 ≤ w) (hg : ∀ p ∈ g, 0 < p)
+    (hl : LE lo' lo) (hh : LE hi hi') (hv : LE lo hi) (hv' : LE lo' hi') (R R' : PB)
+    (e : stacking g lo hi wts = .ok R) (e' : stacking g lo' hi' wts = .ok R') : PSub R R' := by
+  have key : ∀ {a b : List Rat} {Q : PB}, LE a b → stacking g a b wts = .ok Q →
+      Q = ⟨stackBound g a wts, stackBound g b wts⟩ := by
+    intro a b Q hab hq
+    have hle := stackBound_mono (g := g) hab hw hg
+    unfold stacking at hq
+    split at hq
+    · cases hq
+    · split at hq
+      · cases hq
+      · split at hq
+        · cases hq
+        · split at hq
+          · cases hq
+          · simp only at hq
+            split at hq
+            · rename_i hge
+              have := allGe_eq_of_LE hle hge
+              cases hq
+              simp only [PB.mk.injEq]
+              exact ⟨this.symm, this⟩
+            · cases hq; rfl
+  rw [key hv e, key hv' e']
+  exact ⟨stackBound_mono hl hw hg, stackBound_mono hh hw hg⟩
+
+/-- **mixed propagation (`slicing`, direct interval strategy) with a fixed number of slices is isotone**:
+the level grid does not depend on the operands, every cut of a wider p-box is wider, the response
+expression is inclusion isotone, and stacking is monotone in the focal intervals -/
+theorem slicing_iso (pv levels : List Rat) (t : ITree) (w : Rat) (hw : 0 ≤ w) (hg : ∀ p ∈ pv, 0 < p)
+    {vars vars' : List PB} (h : List.Forall₂ PSub vars vars') (R R' : PB)
+    (e : slicing pv levels t vars w = .ok R) (e' : slicing pv levels t vars' w = .ok R') : PSub R R' := by
+  unfold slicing at e e'
+  obtain ⟨im, ei, h2⟩ := bind_ok e
+  obtain ⟨im', ei', h2'⟩ := bind_ok e'
+  have hf := sliceImages_iso pv levels t h im im' ei ei'
+  obtain ⟨s1, s2, s3, s4⟩ := split_images hf
+  have hlen : im'.length = im.length := hf.length_eq.symm
+  rw [hlen] at h2'
+  exact stacking_iso pv _ _ _ _ _ (fun x hx => by rw [List.eq_of_mem_replicate hx]; exact hw) hg s1 s2 s3 s4 R R' h2 h2'
+
+
+/-! non-vacuity: three focal intervals with weights 1/4, 1/4, 1/2 on the grid {1/4, 1/2, 3/4, 1}, then widened -/
+example : LE (stackBound [1/4, 1/2, 3/4, 1] [0, 3, 1] [1/4, 1/4, 1/2]) (stackBound [1/4, 1/2, 3/4, 1] [1, 3, 2] [1/4, 1/4, 1/2]) :=
+  stackBound_mono (by decide +kernel) (by decide +kernel) (by decide +kernel)
+example : alphaCut [1/10, 1/2, 9/10] ⟨[1, 2, 3], [2, 3, 4]⟩ (3/5) = .ok (2, 3) := by decide +kernel
+example : nearestIdx [1/10, 1/2, 9/10] (3/10) = 0 := by decide +kernel   -- a tie: `argmin` keeps the first
+
+end Mixed
+
+/-! ## the full statement and what is missing -/
+
+section Statement
+open Pun Pun.PBox
+
+/-- division-free nested p-box expressions (a number divisor must be non-zero) -/
+def PTree.NoDiv : PTree → Prop
+  | .var _ => True
+  | .bin o d a b => o ≠ .div ∧ d ≠ .unknown ∧ a.NoDiv ∧ b.NoDiv
+  | .numR o a c => (o = .div → c ≠ 0) ∧ a.NoDiv
+  | .numL o _ a => o ≠ .div ∧ a.NoDiv
+  | .neg a => a.NoDiv
+  | .env a b => a.NoDiv ∧ b.NoDiv
+  | .imp a b => a.NoDiv ∧ b.NoDiv
+
+/-- **C12 for p-box expressions at full strength** (division apart): every nested expression, every dependency
+including the Frechet product of operands of any sign.  `ptree_iso_partial` proves it for the trees whose
+products are under perfect / opposite / independent dependence (`PTree.Proven`); `mul_iso_f_pos` adds the Frechet
+product of non-negative operands.  MISSING: the Frechet product with a negative or zero-straddling operand. -/
+def C12Statement : Prop :=
+  ∀ (n : Nat) (t : PTree), t.NoDiv → ∀ (vars vars' : List PB), List.Forall₂ PSub vars vars' →
+    (∀ P ∈ vars, WF n P) → (∀ P ∈ vars', WF n P) →
+    ∀ R R', t.eval n vars = .ok R → t.eval n vars' = .ok R' → PSub R R'
+
+/-- **C12 for division** `X.div(Y, d)` with a divisor of one sign.  MISSING entirely (reciprocal, then the product
+under the swapped dependency); covered by the correspondence and the oracle. -/
+def C12DivStatement : Prop :=
+  ∀ (n : Nat) (d : Dep), d ≠ .unknown → ∀ (X X' Y Y' : PB), WF n X → WF n X' → WF n Y → WF n Y' →
+    ((∀ v ∈ Y'.left, 0 < v) ∨ (∀ v ∈ Y'.right, v < 0)) → PSub X X' → PSub Y Y' →
+    ∀ R R', div n d X Y = .ok R → div n d X' Y' = .ok R' → PSub R R'
+
+theorem proven_noDiv (t : PTree) (h : t.Proven) : t.NoDiv := by
+  induction t with
+  | var i => trivial
+  | bin o d a b iha ihb =>
+    obtain ⟨hn, ha, hb⟩ := h
+    refine ⟨?_, ?_, iha ha, ihb hb⟩
+    · rcases hn with ⟨ho, _⟩ | ⟨ho, _⟩
+      · rcases ho with ho | ho <;> subst ho <;> simp
+      · subst ho; simp
+    · rcases hn with ⟨_, hd⟩ | ⟨_, hd⟩
+      · exact hd
+      · rcases hd with hd | hd | hd <;> subst hd <;> simp
+  | numR o a c iha => exact ⟨h.1, iha h.2⟩
+  | numL o c a iha => exact ⟨h.1, iha h.2⟩
+  | neg a iha => exact iha h
+  | env a b iha ihb => exact ⟨iha h.1, ihb h.2⟩
+  | imp a b iha ihb => exact ⟨iha h.1, ihb h.2⟩
+
+/-- the proved part of `C12Statement`, in its shape -/
+theorem c12_partial (n : Nat) (t : PTree) (ht : t.Proven) (vars vars' : List PB) (h : List.Forall₂ PSub vars vars')
+    (hw : ∀ P ∈ vars, WF n P) (hw' : ∀ P ∈ vars', WF n P) (R R' : PB)
+    (e : t.eval n vars = .ok R) (e' : t.eval n vars' = .ok R') : PSub R R' := by
+  obtain ⟨R0, e0, hs, _, _⟩ := ptree_iso_partial n t ht h hw hw' R e
+  rw [e0] at e'
+  cases e'
+  exact hs
+
+end Statement
+
 end Pun.Iso
